@@ -553,7 +553,7 @@ func c02Elliptic(c *Ctx) {
 			et := b.Of(e.Results[1], e.Instr)
 			if et.Is("nil") {
 				vt := b.Of(e.Results[0], e.Instr)
-				_, ok := ana.Match("obj(alloc<repo/pkg/slip10/elliptic.PrivateKey>, store(faddr<K>(self), "+sc+"), store(faddr<Curve>(self), _))", vt)
+				_, ok := ana.MatchX(c.P, "obj(alloc<repo/pkg/slip10/elliptic.PrivateKey>, store(faddr<K>(self), "+sc+"), store(faddr<Curve>(self), _))", vt)
 				r.Check(ok && len(rej) == 2, "C02.scalar-validity.new-private-key.accept", c.ipos(e.Instr), "accepts k = SetBytes(buf) exactly when 0 < k < N (two reject tests found: %d): %s", len(rej), short(vt.String(), 200))
 			} else {
 				nRej++
@@ -580,7 +580,7 @@ func c02Elliptic(c *Ctx) {
 			et := b.Of(e.Results[1], e.Instr)
 			if et.Is("nil") {
 				vt := b.Of(e.Results[0], e.Instr)
-				_, ok := ana.Match("obj(alloc<repo/pkg/slip10/elliptic.PrivateKey>, store(faddr<K>(self), "+sum+"), store(faddr<Curve>(self), load(faddr<Curve>(p0))))", vt)
+				_, ok := ana.MatchX(c.P, "obj(alloc<repo/pkg/slip10/elliptic.PrivateKey>, store(faddr<K>(self), "+sum+"), store(faddr<Curve>(self), load(faddr<Curve>(p0))))", vt)
 				r.Check(ok && len(rej) == 2, "C02.scalar-validity.shift.accept", c.ipos(e.Instr), "child scalar = (IL + K) mod N on the same curve, accepted exactly when IL < N and the sum is non-zero: %s", ana.Explain("obj(alloc<repo/pkg/slip10/elliptic.PrivateKey>, store(faddr<K>(self), "+sum+"), store(faddr<Curve>(self), load(faddr<Curve>(p0))))", vt))
 			} else {
 				_, ok := ana.Match("load(global<"+slipPkg+"ErrInvalidKey>)", et)
